@@ -240,24 +240,219 @@ def _dispatch_order(fn: ast.FunctionDef, var: str) -> list[str]:
 
 
 def extract_coerce_order() -> dict:
-    """Order of the type tests in `coerce_expression` and `_primitive_cls_from_value` (bool before int),
-    and that floats are rendered through `repr`."""
+    """Order of the type tests in `coerce_expression` and `_primitive_cls_from_value` (bool before int)."""
     emod = parse_file("expressions/expression.py")
     ce = find_function(emod, "coerce_expression")
     order = _dispatch_order(ce, ce.args.args[0].arg)
     pmod = parse_file("expressions/primitive.py")
     pc = find_function(pmod, "_primitive_cls_from_value")
     porder = _dispatch_order(pc, pc.args.args[0].arg)
-    float_repr = False
-    for node in ast.walk(ce):
+    return {"coerce": order, "primitive": porder}
+
+
+def _branch_of(ce: ast.FunctionDef, typ: str) -> ast.If:
+    var = ce.args.args[0].arg
+    for st in ce.body:
+        if isinstance(st, ast.If):
+            t = st.test
+            if (isinstance(t, ast.Call) and isinstance(t.func, ast.Name) and t.func.id == "isinstance"
+                    and isinstance(t.args[0], ast.Name) and t.args[0].id == var
+                    and isinstance(t.args[1], ast.Name) and t.args[1].id == typ):
+                return st
+    raise ExtractError(f"coerce_expression: no `isinstance(value, {typ})` branch")
+
+
+def _strip_doc(body):
+    if body and isinstance(body[0], ast.Expr) and isinstance(body[0].value, ast.Constant) \
+            and isinstance(body[0].value.value, str):
+        return body[1:]
+    return body
+
+
+def extract_float_literal() -> tuple[str, str, str]:
+    """How `coerce_expression` spells a float: `FloatExpression(value=H(value))` with
+
+        def H(value): text = repr(value)
+                      if "<dot>" not in text:
+                          a, b, c = text.partition("<mark>"); text = f"{a}<ins>{b}{c}"
+                      return text
+
+    -> (dot, mark, ins)."""
+    emod = parse_file("expressions/expression.py")
+    ce = find_function(emod, "coerce_expression")
+    var = ce.args.args[0].arg
+    br = _branch_of(ce, "float")
+    helper = None
+    for node in ast.walk(br):
         if isinstance(node, ast.Call) and isinstance(node.func, ast.Name) and node.func.id == "FloatExpression":
             for kw in node.keywords:
-                if kw.arg == "value" and isinstance(kw.value, ast.Call) and isinstance(kw.value.func, ast.Name) \
-                        and kw.value.func.id in ("repr", "str"):  # identical for floats in Python 3
-                    float_repr = True
-    if not float_repr:
-        raise ExtractError("coerce_expression: floats are not rendered as FloatExpression(value=repr(value))")
-    return {"coerce": order, "primitive": porder}
+                if (kw.arg == "value" and isinstance(kw.value, ast.Call) and isinstance(kw.value.func, ast.Name)
+                        and len(kw.value.args) == 1 and isinstance(kw.value.args[0], ast.Name)
+                        and kw.value.args[0].id == var and not kw.value.keywords):
+                    helper = kw.value.func.id
+    if helper is None:
+        raise ExtractError("coerce_expression: floats are not rendered as FloatExpression(value=<helper>(value))")
+    if helper in ("repr", "str"):
+        raise ExtractError("coerce_expression: floats are rendered as the bare repr (no `.` is put back)")
+    fn = find_function(emod, helper)
+    body = _strip_doc(fn.body)
+    arg = fn.args.args[0].arg
+    if len(body) != 3:
+        raise ExtractError(f"{helper}: expected `text = repr(v)`, one `if`, `return text`")
+    a0, cond, ret = body
+    ok0 = (isinstance(a0, ast.Assign) and len(a0.targets) == 1 and isinstance(a0.targets[0], ast.Name)
+           and isinstance(a0.value, ast.Call) and isinstance(a0.value.func, ast.Name)
+           and a0.value.func.id in ("repr", "str") and len(a0.value.args) == 1
+           and isinstance(a0.value.args[0], ast.Name) and a0.value.args[0].id == arg)
+    if not ok0:
+        raise ExtractError(f"{helper}: does not start with `text = repr(value)`")
+    text = a0.targets[0].id
+    if not (isinstance(ret, ast.Return) and isinstance(ret.value, ast.Name) and ret.value.id == text):
+        raise ExtractError(f"{helper}: does not end with `return {text}`")
+    t = cond.test if isinstance(cond, ast.If) else None
+    if not (t is not None and not cond.orelse and isinstance(t, ast.Compare) and len(t.ops) == 1
+            and isinstance(t.ops[0], ast.NotIn) and const_str(t.left) is not None and len(const_str(t.left)) == 1
+            and isinstance(t.comparators[0], ast.Name) and t.comparators[0].id == text and len(cond.body) == 2):
+        raise ExtractError(f"{helper}: no `if \"<c>\" not in {text}:` with a two-statement body")
+    dot = const_str(t.left)
+    part, build = cond.body
+    pv = part.value if isinstance(part, ast.Assign) else None
+    if not (pv is not None and isinstance(part.targets[0], ast.Tuple) and len(part.targets[0].elts) == 3
+            and all(isinstance(e, ast.Name) for e in part.targets[0].elts)
+            and isinstance(pv, ast.Call) and isinstance(pv.func, ast.Attribute) and pv.func.attr == "partition"
+            and isinstance(pv.func.value, ast.Name) and pv.func.value.id == text and len(pv.args) == 1
+            and const_str(pv.args[0]) is not None and len(const_str(pv.args[0])) == 1):
+        raise ExtractError(f"{helper}: no `a, b, c = {text}.partition(\"<c>\")`")
+    names = [e.id for e in part.targets[0].elts]
+    mark = const_str(pv.args[0])
+    js = build.value if isinstance(build, ast.Assign) else None
+    if not (js is not None and isinstance(build.targets[0], ast.Name) and build.targets[0].id == text
+            and isinstance(js, ast.JoinedStr) and len(js.values) == 4):
+        raise ExtractError(f"{helper}: no `{text} = f\"{{a}}<ins>{{b}}{{c}}\"`")
+    v0, v1, v2, v3 = js.values
+
+    def fv(n, name):
+        return (isinstance(n, ast.FormattedValue) and isinstance(n.value, ast.Name) and n.value.id == name
+                and n.format_spec is None and n.conversion == -1)
+
+    if not (fv(v0, names[0]) and const_str(v1) is not None and fv(v2, names[1]) and fv(v3, names[2])):
+        raise ExtractError(f"{helper}: the f-string is not {{a}}<ins>{{b}}{{c}}")
+    return dot, mark, const_str(v1)
+
+
+def _const_int_expr(node) -> int | None:
+    """Evaluate an integer expression built from literals with + - * ** (nothing else)."""
+    v = _int_const(node)
+    if v is not None:
+        return v
+    if isinstance(node, ast.UnaryOp) and isinstance(node.op, ast.USub):
+        x = _const_int_expr(node.operand)
+        return None if x is None else -x
+    if isinstance(node, ast.BinOp):
+        a, b = _const_int_expr(node.left), _const_int_expr(node.right)
+        if a is None or b is None:
+            return None
+        if isinstance(node.op, ast.Add):
+            return a + b
+        if isinstance(node.op, ast.Sub):
+            return a - b
+        if isinstance(node.op, ast.Mult):
+            return a * b
+        if isinstance(node.op, ast.Pow) and 0 <= b <= 4096:
+            return a ** b
+    return None
+
+
+def extract_int_literal_max() -> int:
+    """`coerce_expression`, int branch: the first statement is `if abs(value) > N: raise ValueError(…)`
+    (N a literal expression or a module constant)  ->  N."""
+    emod = parse_file("expressions/expression.py")
+    ce = find_function(emod, "coerce_expression")
+    var = ce.args.args[0].arg
+    br = _branch_of(ce, "int")
+    first = br.body[0] if br.body else None
+    t = first.test if isinstance(first, ast.If) else None
+    if not (t is not None and not first.orelse and isinstance(t, ast.Compare) and len(t.ops) == 1
+            and isinstance(t.ops[0], ast.Gt) and isinstance(t.left, ast.Call) and isinstance(t.left.func, ast.Name)
+            and t.left.func.id == "abs" and len(t.left.args) == 1 and isinstance(t.left.args[0], ast.Name)
+            and t.left.args[0].id == var):
+        raise ExtractError("coerce_expression: the int branch does not start with `if abs(value) > N:`")
+    raises = (len(first.body) == 1 and isinstance(first.body[0], ast.Raise)
+              and isinstance(first.body[0].exc, ast.Call) and isinstance(first.body[0].exc.func, ast.Name)
+              and first.body[0].exc.func.id == "ValueError")
+    if not raises:
+        raise ExtractError("coerce_expression: the range test of the int branch does not raise ValueError")
+    bound = t.comparators[0]
+    n = _const_int_expr(bound)
+    if n is None and isinstance(bound, ast.Name):
+        for node in emod.body:
+            if isinstance(node, ast.Assign) and any(isinstance(x, ast.Name) and x.id == bound.id for x in node.targets):
+                n = _const_int_expr(node.value)
+    if n is None or n < 0:
+        raise ExtractError("coerce_expression: cannot evaluate the integer bound")
+    return n
+
+
+def extract_list_item_rule() -> dict:
+    """`NixList`: which functions coerce an item with the parenthesising helper and which with plain
+    `coerce_expression`; the helper wraps `Parenthesis(value=<bare>, before=…, after=…)` when the
+    predicate holds; the predicate is `IntegerPrimitive: value < 0`, `FloatExpression: value.startswith("-")`."""
+    mod = parse_file("expressions/list.py")
+    helper = find_function(mod, "_coerce_list_item")
+    pred_name = None
+    wraps = False
+    for node in ast.walk(helper):
+        if isinstance(node, ast.If) and isinstance(node.test, ast.Call) and isinstance(node.test.func, ast.Name):
+            pred_name = node.test.func.id
+            for sub in ast.walk(node):
+                if isinstance(sub, ast.Return) and isinstance(sub.value, ast.Call) \
+                        and isinstance(sub.value.func, ast.Name) and sub.value.func.id == "Parenthesis":
+                    kws = {k.arg for k in sub.value.keywords}
+                    wraps = {"value", "before", "after"} <= kws
+    if pred_name is None or not wraps:
+        raise ExtractError("_coerce_list_item: no `if <pred>(expr): … return Parenthesis(value=, before=, after=)`")
+    first = _strip_doc(helper.body)[0]
+    if not (isinstance(first, ast.Assign) and isinstance(first.value, ast.Call)
+            and isinstance(first.value.func, ast.Name) and first.value.func.id == "coerce_expression"):
+        raise ExtractError("_coerce_list_item: does not start with `expr = coerce_expression(item)`")
+    pred = find_function(mod, pred_name)
+    tests = []
+    for st in _strip_doc(pred.body):
+        if isinstance(st, ast.If):
+            t = st.test
+            if not (isinstance(t, ast.Call) and isinstance(t.func, ast.Name) and t.func.id == "isinstance"
+                    and isinstance(t.args[1], ast.Name) and len(st.body) == 1 and isinstance(st.body[0], ast.Return)):
+                raise ExtractError(f"{pred_name}: unrecognised test")
+            r = st.body[0].value
+            if (isinstance(r, ast.Compare) and len(r.ops) == 1 and isinstance(r.ops[0], ast.Lt)
+                    and isinstance(r.left, ast.Attribute) and r.left.attr == "value"
+                    and _int_const(r.comparators[0]) == 0):
+                tests.append((t.args[1].id, "value<0"))
+            elif (isinstance(r, ast.Call) and isinstance(r.func, ast.Attribute) and r.func.attr == "startswith"
+                  and isinstance(r.func.value, ast.Attribute) and r.func.value.attr == "value"
+                  and len(r.args) == 1 and const_str(r.args[0]) is not None):
+                tests.append((t.args[1].id, "value.startswith:" + const_str(r.args[0])))
+            else:
+                raise ExtractError(f"{pred_name}: unrecognised result for {t.args[1].id}")
+        elif isinstance(st, ast.Return):
+            if not (isinstance(st.value, ast.Constant) and st.value.value is False):
+                raise ExtractError(f"{pred_name}: the fall-through result is not False")
+        elif not isinstance(st, (ast.Import, ast.ImportFrom)):
+            raise ExtractError(f"{pred_name}: unexpected statement")
+    cls = _find_class(mod, "NixList")
+    users = {"_coerce_list_item": [], "coerce_expression": []}
+    for m in cls.body:
+        if not isinstance(m, ast.FunctionDef):
+            continue
+        # nested helper functions (render_item) are reported under their own name
+        nested = [n for n in ast.walk(m) if isinstance(n, ast.FunctionDef) and n is not m]
+        for fn in [m] + nested:
+            own = [n for n in ast.walk(fn) if not any(n is not x and n in ast.walk(x) for x in nested if x is not fn)]
+            for n in own:
+                if isinstance(n, ast.Call) and isinstance(n.func, ast.Name) and n.func.id in users:
+                    if fn.name not in users[n.func.id]:
+                        users[n.func.id].append(fn.name)
+    return {"tests": tests, "paren": sorted(users["_coerce_list_item"]), "plain": sorted(users["coerce_expression"])}
 
 
 def emit(res: Result) -> dict[str, str]:
@@ -291,5 +486,19 @@ def emit(res: Result) -> dict[str, str]:
     else:
         out += [f"def coerceOrder : Option (List String) := some {fmt(co['coerce'])}",
                 f"def primitiveOrder : Option (List String) := some {fmt(co['primitive'])}"]
+    fl = run_table(res, "float_literal", extract_float_literal)
+    out.append("def floatLiteralRule : Option (Char × Char × List Char) := "
+               + ("none" if fl is None or len(fl[0]) != 1 or len(fl[1]) != 1 else
+                  f"some ({lean_text(fl[0])[1:-1]}, {lean_text(fl[1])[1:-1]}, {lean_text(fl[2])})"))
+    im = run_table(res, "int_literal_max", extract_int_literal_max)
+    out.append(f"def coerceIntMax : Option Nat := {'none' if im is None else f'some {im}'}")
+    li = run_table(res, "list_item_paren", extract_list_item_rule)
+    if li is None:
+        out += ["def negLiteralTests : Option (List (String × String)) := none",
+                "def listItemCoercers : Option (List String × List String) := none"]
+    else:
+        tests = "[" + ", ".join(f'("{a}", "{b}")' for a, b in li["tests"]) + "]"
+        out += [f"def negLiteralTests : Option (List (String × String)) := some {tests}",
+                f"def listItemCoercers : Option (List String × List String) := some ({fmt(li['paren'])}, {fmt(li['plain'])})"]
     out += ["", "end Nima.Gen", ""]
     return {"Value.lean": "\n".join(out)}
